@@ -240,6 +240,11 @@ func (it *TxnIterator) advance() {
 			}
 		}
 		if !it.materializeEntry(entry, cf, userKey, version) {
+			if !it.opt.AllVersions && !it.opt.Reverse {
+				// The newest visible version of this key is a tombstone (or expired): it
+				// hides the older versions, which must not be yielded in its place.
+				it.lastKey = append(it.lastKey[:0], userKey...)
+			}
 			it.iitr.Next()
 			continue
 		}
